@@ -427,6 +427,27 @@ pub fn c17(a: &Args) -> i32 {
                                  "server_saw": seen, "alive": alive}));
             }
         }
+        // the limit is the configured one whatever the peer itself has SENT: after a request larger than the limit, a response
+        // larger than the limit (but smaller than that request) is still replaced, on the server and through the proxy
+        if limit > 0 {
+            for (path, which) in [("inline_after_big_request", 0), ("proxy_after_big_request", 1)] {
+                let sock: &mut Ws = if which == 0 { &mut ws } else { &mut pws };
+                for size in [limit + 1, limit + 1000] {
+                    id += 1;
+                    let rep0 = reported.load(Ordering::SeqCst);
+                    ws_send(sock, &Message::builder().id(id).query_str("/big").body_json(&json!({"frame": size, "pad": "p".repeat(limit + 3000)})).unwrap().build());
+                    let mut observed = vec![];
+                    let (mut ec, mut same_id) = (-1i64, false);
+                    if let Some((rid, rec, _, _, len)) = ws_next(sock, Duration::from_secs(5)) { observed.push(len); ec = rec as i64; same_id = rid == id; }
+                    id += 1;
+                    ws_send(sock, &Message::builder().id(id).query_str("/big").body_json(&json!({"frame": 80})).unwrap().build());
+                    let alive = matches!(ws_next(sock, Duration::from_secs(5)), Some((rid, 0, _, _, _)) if rid == id);
+                    n_cases += 1;
+                    out.push(&json!({"ev": "guard", "path": path, "kind": "response", "limit": limit, "size": size, "observed": observed, "ec": ec, "same_id": same_id,
+                                     "reported": reported.load(Ordering::SeqCst) > rep0, "has_hook": which == 0, "alive": alive}));
+                }
+            }
+        }
         // bursts: several messages are in the outbound queue when the writer wakes, the oversized one not first
         if limit > 0 {
             for rep in 0..12u64 {
